@@ -127,11 +127,14 @@ def boundaries(fem, fc, Xref, case, dim):
         skip = (0,) * dim
     if case["bc"] == "face":
         return {"fix": fem.Boundary(f, mask=left)}
+    # every other dictionary comes from a static analysis: its second boundary still carries a prescribed value (a modal analysis
+    # constrains those unknowns all the same - mode shapes vanish there)
+    vkw = {"value": 0.2} if case["seed"] % 2 else {}
     if case["bc"] == "face-partial":
         # fixed face plus a partially constrained opposite face (no rigid body mode left)
-        return {"fix": fem.Boundary(f, mask=left), "part": fem.Boundary(f, mask=right, skip=skip)}
+        return {"fix": fem.Boundary(f, mask=left), "part": fem.Boundary(f, mask=right, skip=skip, **vkw)}
     if case["bc"] == "two-faces":
-        return {"fix": fem.Boundary(f, mask=left), "fix2": fem.Boundary(f, mask=right)}
+        return {"fix": fem.Boundary(f, mask=left), "fix2": fem.Boundary(f, mask=right, **vkw)}
     m = left.copy()
     r = np.random.default_rng(case["seed"])
     m |= r.uniform(size=len(x)) < 0.15
@@ -400,6 +403,8 @@ def free_check(cls, case, rec):
     job = fem.FreeVibration([body], {}).evaluate(solver=lambda A, M, sigma, **kw: eigsh(A, M=M, sigma=-1e-3 * scale, **kw), k=k)
     lam = np.sort(np.asarray(job.eigenvalues))
     rec.nontrivial = True
+    if not rec.require("free-body: as many pairs as requested", lam.shape == (k,) and np.asarray(job.eigenvectors).shape[1] == k, [lam.shape, k]):
+        return
     ref = lam[nrb]
     rec.require("first-elastic-eigenvalue-positive", bool(ref > 0), float(ref))
     rec.close("zero-frequency-modes", float(np.abs(lam[:nrb]).max()) / ref, 1e-7, {"lam": lam.tolist()})
